@@ -3,6 +3,7 @@
  * Model: units/veru_model.h (abstract key ranks, ghost-index file lists).
  */
 #include "units/veru_model.h"
+static void icmp_hook(const ldb_slice_t *x, const ldb_slice_t *y, int res) { (void)x; (void)y; (void)res; }
 static void push_hook(const void *x) { (void)x; }
 static void push_other_hook(void) { }
 
